@@ -191,6 +191,9 @@ def locks_run(evs):
     gone = sorted(p for p in pids if p not in exited)
     out = [{'ev': 'Reset', 'pid': 0, 'gone': gone}]
     anc_cache = {}
+    # processes that build (redo, redo-ifchange): the log viewer also probes target locks, without any obligation
+    builders = set(ev['pid'] for ev in evs if ev['ev'] == 'ProcStart' and ev.get('argv') and
+                   os.path.basename(ev['argv'][0]) in ('redo', 'redo-ifchange'))
 
     def ctx(pid):
         if pid not in anc_cache:
@@ -206,6 +209,8 @@ def locks_run(evs):
         if n == 'LockTry':
             if ev['ok']:
                 out.append({'ev': 'Take', 'pid': pid, 'fid': fid})
+            elif pid in builders:
+                out.append({'ev': 'Busy', 'pid': pid, 'fid': fid})
         elif n == 'LockAcq':
             if not ev.get('shared'):
                 out.append({'ev': 'Take', 'pid': pid, 'fid': fid})
@@ -227,7 +232,7 @@ def locks_run(evs):
         elif n == 'Commit':
             out.append({'ev': 'Commit', 'pid': pid})
         elif n == 'Exit':
-            out.append({'ev': 'Exit', 'pid': pid})
+            out.append({'ev': 'Exit', 'pid': pid, 'rc': ev.get('rc', -1) if isinstance(ev.get('rc', -1), int) else -1})
         elif n in ('ScriptStart', 'ScriptEnd'):
             if pid not in jobinfo or pid not in job_parent:
                 continue
